@@ -776,7 +776,7 @@ func engineC26(c *vctx) error {
 	}
 	var someOrig restic.ID
 	copy(someOrig[:], rng.bytes(32))
-	sum := &data.SnapshotSummary{FilesNew: 3, TotalFilesProcessed: 3, TotalBytesProcessed: 25}
+	sum := &data.SnapshotSummary{FilesNew: 3, TotalFilesProcessed: 4, TotalBytesProcessed: 26} // never equal to a recomputed summary
 
 	t0 := time.Now()
 	lap := func(name string) {
